@@ -19,7 +19,9 @@ def oracle_trigger(run):
           `ast triggered 1` lies after A's clear step and before the return; wait() never returns false;
       (2) waitActivation() / wait_forActivation() returning true: their last load of `activated` read 1;
       (3) the timed forms return false only if their last load of the awaited flag read 0 while the thread
-          held the matching mutex;
+          held the matching mutex, and the flag (set only under that mutex) is still 0 when they release the
+          mutex for the last time: "false" is never returned when the event had happened by the time they gave up
+          (a notified waiter that wakes late - `cwk ... late` - must re-read the flag);
       (4) trigger() returning false stored / notified nothing and read `activated = 0`; returning true it
           stored `triggered = 1` and notified cv_trigger, both under triggerLock;
           activate() likewise (clear under triggerLock; set-active + notify under activeLock);
@@ -43,7 +45,7 @@ def oracle_trigger(run):
         if k == "cfg":
             val["activated"] = int(t[2])
         elif k == "call":
-            call[tid] = dict(op=t[1], at=i, seen=None, first=True, flagload=None, stores=[], notifies=[], unlock_act=None,
+            call[tid] = dict(op=t[1], at=i, seen=None, first=True, flagload=None, stores=[], notifies=[], unlock_act=None, flag_at_release=None,
                              clear=None, set_inactive_ok=None)
         elif k == "mlk":
             h.add(t[1])
@@ -51,6 +53,10 @@ def oracle_trigger(run):
             h.discard(t[1])
             if c is not None and t[1] == "activeLock":
                 c["unlock_act"] = val["activated"]
+            if c is not None:
+                # value of the awaited flag when the thread gives the matching mutex up (stores need that mutex, so this
+                # is the value at every point since the thread last (re)acquired it: its deciding point)
+                c["flag_at_release"] = val["triggered" if t[1] == "triggerLock" else "activated"]
         elif k == "cwt":
             if LOCK_OF.get(t[1]) != t[2] or t[2] not in h:
                 return "cv wait on %s without holding its mutex" % t[1]
@@ -108,6 +114,9 @@ def oracle_trigger(run):
                 fl = c["flagload"]
                 if fl is None or fl[0] != 0 or not fl[1]:
                     return "%s() returned false but its last load of the awaited flag was not a 0 read under the mutex" % op
+                if c["flag_at_release"] == 1:
+                    return ("%s() returned false although the awaited flag had been set (and not cleared) when it gave up: "
+                            "the event had happened" % op)
             if op == "trigger":
                 if r == "0" and (c["stores"] or c["notifies"] or c["flagload"] != (0, False)):
                     return "trigger() returned false but had an effect (or did not read activated = 0)"
@@ -159,7 +168,9 @@ def register(PROPS, COMPONENTS):
                    "is mechanised to termination only for the case where BOTH flags are true and stay so (the proviso taken for "
                    "both condition variables at once); for a trigger on its own (activated may be reset meanwhile) and for "
                    "activate on its own it is proved as the safety facts L1-L4 that imply it under weak fairness.",
-        trusted_base=["Model/Trigger.lean is a hand-written model of TriggerVariable.hpp (all nine public methods, reset's "
+        trusted_base=["harness/vshim.hpp: a timed cv wait that was notified may, by the scheduler's recorded choice, report "
+                      "a time-out (`cwk ... late`), as the real wait_for / wait_until may",
+                      "Model/Trigger.lean is a hand-written model of TriggerVariable.hpp (all nine public methods, reset's "
                       "unlock/trigger/lock loop with its acquire load included); it is a discipline slightly weaker than "
                       "today's code: the store and the notify_all inside trigger()'s / activate()'s critical section may "
                       "come in either order, waits may load their flag any number of times under the mutex, reset's loop "
@@ -167,8 +178,9 @@ def register(PROPS, COMPONENTS):
                       "the ghost history (hist, lastClear, actClear, myClear, obs) is updated by the model's step function at "
                       "the four kinds of store steps and at the fast-path load of wait()/wait_for(); its reading is part of "
                       "the statement of the theorems",
-                      "the shim's condition variable re-acquires the mutex in the same step as the wake-up / time-out "
-                      "(a time-out that loses a race with a notification appears as a notified wake-up)"],
+                      "the shim's condition variable re-acquires the mutex in the same step as the wake-up / time-out; a "
+                      "time-out that loses a race with a notification appears as a `late` wake-up (notified, reported "
+                      "as a time-out) or as a notified one"],
         partial=["'a successful trigger(), activate() or reset() releases every thread already blocked on that event, provided the "
                  "variable is not re-activated while they are still blocked': fully mechanised (termination for every scheduler, "
                  "C11_armed_terminates / C11_armed_bounded_run / C11_armed_stuck_all_returned) for executions that start with "
